@@ -193,6 +193,14 @@ theorem C33_copy_part (sr1 sc1 sr2 sc2 tr tc : Int) (p q : CfPart)
       omega
     · cases h
 
+/-- **copy, rule formulas** (repaired code, fix F33b): a rule formula read at the old top-left cell `a` and written
+    as seen from the new one `n` keeps its absolute coordinates and moves its relative coordinates by `n - a` —
+    what copying a cell formula does -/
+theorem C33_copy_formula_translates (h a n : Int) (e : End) :
+    (retypeEnd h a e).resolve n = if e.abs then e.resolve h else e.resolve h + (n - a) := by
+  cases e with
+  | mk abs v => cases abs <;> simp [retypeEnd, End.ofA1, End.resolve] <;> omega
+
 /-- **links under cut/copy paste**: the target cells get the links of the cells pasted onto them, a cut removes
     them from the source cells that were not overwritten, every other cell keeps its link -/
 theorem C33_paste_links {L : Type} (src : Rect) (tr tc : Int) (isCut : Bool) (m : LinkMap L) (r c : Int) :
